@@ -295,6 +295,52 @@ def describe(x):
     return "%s%s(%s:%s)@%d" % (kind, ":" + arg if arg else "", name, role, k)
 
 
+def count_sweep(v, ex, s, tier):
+    """Kill the edit run right after every operation that moves content or the lock into place, for every pair of per-file
+    statement counts: the lock must already cover every ID that reached a source file (it is reserved before the file is
+    rewritten). Counts matter because reservations are arithmetic on them; small-scope histories never see a file with 17 statements."""
+    nmax = 70 if tier == "thorough" else 20
+    locks = [1, 250, 65530] if tier == "thorough" else [1, 65530]
+    jobs = []
+    for n1 in range(1, nmax + 1):
+        for n2 in range(1, nmax + 1):
+            if tier != "thorough" and (n1 + n2) % 2 and n1 > 4 and n2 > 4:
+                continue   # quick: every other pair beyond the smallest ones
+            for L in locks:
+                if L != 1 and (n1 * 31 + n2) % 5:
+                    continue
+                jobs.append((n1, n2, L))
+    n_exec = 0
+    for n1, n2, L in jobs:
+        tree = (("a.rs", tuple((i + 1, None) for i in range(n1))), ("b.rs", tuple((n1 + i + 1, None) for i in range(n2))))
+        sc = scenario(tree, L)
+        base = fsx.execute((sc, [], {}))
+        s.binary_runs += 1
+        plans = []
+        for o in base.trace:
+            if o.op == "rename" or (o.cls == "w" and o.path.endswith(("Breadlog.lock", "Breadlog.lock.tmp"))):
+                plans.append([(o.k, "kill-after")])
+                plans.append([(o.k, "kill-before")])
+        for x in ex.run_plans(sc, plans):
+            s.binary_runs += 1
+            s.transitions += 1
+            n_exec += 1
+            t2 = parse_tree(x.src)
+            ids = live_ids(t2)
+            if not ids:
+                continue
+            if isinstance(x.lock, int) and x.lock > max(ids):
+                continue
+            # dominance fails: turn it into a concrete reuse
+            label = "edit!%s" % describe(x)
+            hist = ["start:two-files(%d,%d statements, lock %d)" % (n1, n2, L), label]
+            before = s.dominance_notes
+            s.dominance(t2, x.lock, frozenset(), hist)
+    v.subspace("count sweep: two files with n1 x n2 unreferenced statements (1..%d), lock in {%s}; edit run killed before/after every rename and "
+               "every lock-file operation; lock must cover every ID already in a source file (witness continuation shows the reuse)" % (
+                   nmax, ",".join(map(str, locks))), n_exec, exhaustive=True, pairs=len(jobs))
+
+
 def run(tier, v):
     ex = fsx.Explorer()
     if tier == "thorough":
@@ -314,6 +360,7 @@ def run(tier, v):
     t2 = tuple((f, st) for f, st in t2 if st) or t2
     roots.append(("lock-ahead-of-tree", (t2, x.lock, frozenset({mx}))))
     s.run(roots)
+    count_sweep(v, ex, s, tier)
     ex.close()
     v.count(s.binary_runs)
     v.coverage["distinct_nontrivial"] = len(s.seen)
